@@ -20,13 +20,13 @@ char g_obj[3];                       // object identities o1, o2
 struct Observed {
     size_t failures = 0; int diag = PASS; std::string text;
     int reached = 0;                 // actual calls whose statement completed
-    int ret[8]; unsigned char outb[8];
+    int ret[8]; unsigned char outb[8]; unsigned char xb[8];
     bool checked = false;
 };
 
 void run_cpp(const Scenario& s, Observed& ob) {
     static unsigned char outsrc[8];
-    for (int i = 0; i < 8; i++) { ob.ret[i] = -7; ob.outb[i] = 0; outsrc[i] = (unsigned char)(50 + i); }
+    for (int i = 0; i < 8; i++) { ob.ret[i] = -7; ob.outb[i] = 0; ob.xb[i] = 0; outsrc[i] = (unsigned char)(50 + i); }
     vf::Fixture fx;
     fx.run(
         [&]() {
@@ -49,7 +49,9 @@ void run_cpp(const Scenario& s, Observed& ob) {
                 MockActualCall& call = M(a.fn).actualCall(name(a.fn));
                 if (a.obj) call.onObject(&g_obj[a.obj]);
                 for (int k = 0; k < a.np; k++) call.withParameter(PN[a.pname[k]], a.pval[k]);
+                if (s.extraOut == 1) call.withOutputParameter("x", &ob.xb[c]);
                 if (s.outParam) call.withOutputParameter("o", &ob.outb[c]);
+                if (s.extraOut == 2) call.withOutputParameter("x", &ob.xb[c]);
                 if (s.readReturn) ob.ret[c] = call.returnIntValueOrDefault(-1);
                 ob.reached = (int)c + 1;
             }
@@ -113,6 +115,7 @@ void check(const Scenario& s, const Alphabet& A) {
                 else if (++handed[j] > s.exps[j].count) vf::fail("return/value-handed-out-too-often", d() + vf::fmt(": value of expectation %d returned %d times", j, handed[j]));
             }
         }
+        if (s.extraOut && ob.xb[c] != 0) vf::fail("output/ignored-output-parameter-written", d() + vf::fmt(": call %zu: the output parameter no expectation names received byte %d", c, ob.xb[c]));
         if (s.outParam && m >= 0) {
             int j = (int)ob.outb[c] - 50;
             if (j < 0 || j >= (int)s.exps.size() || !same_class(s.exps[j], s.exps[m])) vf::fail("output/bytes-of-wrong-expectation", d() + vf::fmt(": call %zu got output byte %d, consumed expectation %d", c, ob.outb[c], m));
@@ -120,10 +123,11 @@ void check(const Scenario& s, const Alphabet& A) {
     }
 }
 
-struct Sweep { const char* name; bool ig, obj; int maxE, maxA; int flagbits; /* how many of strict,ioc,ret,out vary */ int nfn; int scoped = 0; };
+struct Sweep { const char* name; bool ig, obj; int maxE, maxA; int flagbits; /* how many of strict,ioc,ret,out vary */ int nfn; int scoped = 0; bool xout = false; };
 
 void run_sweep(const Sweep& sw) {
     Alphabet A = make_alphabet(sw.ig, sw.obj, sw.nfn);
+    if (sw.xout) { std::vector<Exp> keep; for (auto& e : A.eo) if (e.ignoreOther) keep.push_back(e); A.eo = keep; }   // "x" is only legal where other parameters are ignored
     long nE = tuples_upto((long)A.eo.size(), sw.maxE), nA = tuples_upto((long)A.ao.size(), sw.maxA);
     int nflags = 1 << sw.flagbits;
     long N = nE * nA * nflags;
@@ -137,13 +141,14 @@ void run_sweep(const Sweep& sw) {
         decode_tuple(ie, (long)A.eo.size(), te); decode_tuple(ia, (long)A.ao.size(), ta);
         Scenario s;
         s.strict = flags & 1; s.ignoreOtherCalls = flags & 2; s.readReturn = flags & 4; s.outParam = flags & 8;
+        if (sw.xout) { s.extraOut = 1 + (flags & 1); s.readReturn = flags & 2; s.outParam = true; s.strict = false; s.ignoreOtherCalls = false; }
         if (sw.scoped) { s.scoped = sw.scoped; s.readReturn = flags & 1; s.outParam = flags & 2; s.strict = false; s.ignoreOtherCalls = false; }
         for (int i : te) s.exps.push_back(A.eo[i]);
         for (int i : ta) s.acts.push_back(A.ao[i]);
         if (!canonical(s)) { vf::count("skipped_symmetric"); return; }
         check(s, A);
     });
-    vf::require_outcomes(sw.name, sw.scoped ? 6 : 12);
+    vf::require_outcomes(sw.name, sw.xout ? 5 : sw.scoped ? 6 : 12);
 }
 
 } // namespace
@@ -156,12 +161,12 @@ int main(int argc, char** argv) {
     std::vector<Sweep> sweeps;
     bool sanitized = std::string(VF_FLAVOUR) != "plain";      // the sanitizer build is ~5x slower: smaller sweeps, memory safety is the point there
     if (sanitized) {
-        if (!T) sweeps = { {"basic22", false, false, 2, 2, 2, 2}, {"ignore12", true, false, 1, 2, 4, 2}, {"object12", false, true, 1, 2, 4, 1} };
-        else    sweeps = { {"basic22", false, false, 2, 2, 4, 2}, {"ignore22", true, false, 2, 2, 2, 2}, {"object22", false, true, 2, 2, 2, 1}, {"scope22", false, false, 2, 2, 2, 2, 1}, {"twoscopes22", false, false, 2, 2, 2, 2, 2} };
+        if (!T) sweeps = { {"basic22", false, false, 2, 2, 2, 2}, {"ignore12", true, false, 1, 2, 4, 2}, {"object12", false, true, 1, 2, 4, 1}, {"outignore12", true, false, 1, 2, 2, 2, 0, true} };
+        else    sweeps = { {"basic22", false, false, 2, 2, 4, 2}, {"ignore22", true, false, 2, 2, 2, 2}, {"object22", false, true, 2, 2, 2, 1}, {"scope22", false, false, 2, 2, 2, 2, 1}, {"twoscopes22", false, false, 2, 2, 2, 2, 2}, {"outignore22", true, false, 2, 2, 2, 2, 0, true} };
     } else if (!T) {
-        sweeps = { {"basic22", false, false, 2, 2, 4, 2}, {"basic13", false, false, 1, 3, 3, 2}, {"ignore22", true, false, 2, 2, 2, 2}, {"object22", false, true, 2, 2, 2, 1}, {"scope22", false, false, 2, 2, 2, 2, 1}, {"scope13", false, false, 1, 3, 2, 2, 1}, {"twoscopes22", false, false, 2, 2, 2, 2, 2} };
+        sweeps = { {"basic22", false, false, 2, 2, 4, 2}, {"basic13", false, false, 1, 3, 3, 2}, {"ignore22", true, false, 2, 2, 2, 2}, {"object22", false, true, 2, 2, 2, 1}, {"scope22", false, false, 2, 2, 2, 2, 1}, {"scope13", false, false, 1, 3, 2, 2, 1}, {"twoscopes22", false, false, 2, 2, 2, 2, 2}, {"outignore22", true, false, 2, 2, 2, 2, 0, true} };
     } else {
-        sweeps = { {"basic23", false, false, 2, 3, 4, 2}, {"ignore23", true, false, 2, 3, 2, 2}, {"object22", false, true, 2, 2, 4, 1}, {"object23", false, true, 2, 3, 2, 1}, {"basic32", false, false, 3, 2, 2, 2}, {"scope23", false, false, 2, 3, 2, 2, 1}, {"twoscopes23", false, false, 2, 3, 2, 2, 2} };
+        sweeps = { {"basic23", false, false, 2, 3, 4, 2}, {"ignore23", true, false, 2, 3, 2, 2}, {"object22", false, true, 2, 2, 4, 1}, {"object23", false, true, 2, 3, 2, 1}, {"basic32", false, false, 3, 2, 2, 2}, {"scope23", false, false, 2, 3, 2, 2, 1}, {"twoscopes23", false, false, 2, 3, 2, 2, 2}, {"outignore23", true, false, 2, 3, 2, 2, 0, true} };
     }
     for (auto& sw : sweeps) run_sweep(sw);
     return vf::finish();
